@@ -385,6 +385,11 @@ class Evaluator:
             if args[0].kind not in _PY_TYPE:
                 raise Unencodable(f"type() of symbolic {args[0].kind}", n)
             return _PY_TYPE[args[0].kind]
+        if fn is isinstance and len(args) == 2 and isinstance(args[0], SymVal):
+            # the Python type of a symbolic property value is concrete (its kind)
+            if args[0].kind not in _PY_TYPE or self._symbolic(args[1]):
+                raise Unencodable(f"isinstance() of symbolic {args[0].kind}", n)
+            return issubclass(_PY_TYPE[args[0].kind], args[1])
         if fn is str and len(args) == 1 and isinstance(args[0], (SymVal, SymStr, SymLen)):
             return self.to_str(args[0], -1, n)
         if fn is len and len(args) == 1 and isinstance(args[0], SymStr):
